@@ -372,6 +372,13 @@ def main(repo_path, tier, seed, replay=None):
         check_regions(run, repo, 2, fixed_lsbits=(5, 9))
     check_loop_shape(run, repo)
     check_abort_bookkeeping(run, repo)
+    # O: a faulting access performs no base-register write-back (the C02-O / C03-O ordering rule)
+    from . import c02
+    before = len(run.findings)
+    n = c02.check_abort_ordering(run, repo, 'C14-O')
+    run.instance('C14-O', 'no base write-back before a memory access', obligations=n, ok=len(run.findings) == before,
+                 sample={'load/store classes': n})
+    run.floor('load/store classes under the ordering rule', n, 67)
     # positive control: break added to the region loop (in memory) must be flagged by C14-L
     fi = repo.method('ArmV6', 'translate_address_p')
     src = fi.module.source
@@ -405,5 +412,5 @@ def main(repo_path, tier, seed, replay=None):
         'direction and SCTLR bits; the Background- and Permission-abort state sets and the winning region\'s attributes are '
         'compared with a reference model (BDD equality over ~330 variables, address and base bits interleaved). The loop-shape '
         'rule extends this to any region count. The PMSA arm of DataAbort is checked for every abort type (noreturn, DFAR, DFSR '
-        'fields, EncodePMSAFSR). LR_abt / SPSR_abt are C11-T; no-transfer/no-write-back ordering is C02-O/C03-O.',
+        'fields, EncodePMSAFSR). LR_abt / SPSR_abt are C11-T; the no-write-back clause is the event-order rule C14-O over all 67 load/store classes.',
         './check C14 --tier %s' % tier)
